@@ -201,11 +201,28 @@ CONFIG = {
             "weekday is compared by index in the library's own Mon..Sun vocabulary",
         ],
     },
+    "C06": {
+        "level": "exploration",
+        "rule": "C06: stateful histories on the one-way TCP client against a harness-owned loopback peer that injects connection faults; queue mode with the real drain goroutine.",
+        "groups": [G("c06", shards={"quick": 4, "thorough": 16}, timeout={"quick": 600, "thorough": 3000})],
+        "assumptions": [
+            "TCP lets a write into a half-closed peer succeed: sends issued after a fault and before the client has returned its first error may be lost silently (no constraint on them, except that whatever arrives is whole, correct and not duplicated)",
+            "'detectable' starts at the first error the client returns: from then on, with the listener up, a nil send must occur within three further sends and must arrive on a new connection",
+            "the only wall-clock bound is the 15 s bounded-safety guard for a frame to arrive on loopback",
+            "queue mode with the listener down (5 s sleeps inside the client) is not exercised; race-freedom of the client's own fields is not asserted (not in the statement)",
+            "uses the verif hooks oneway.NewForVerif / StartProcessForVerif; the client's write time-out is shortened to 5 s",
+        ],
+    },
 }
 
 NOT_APPLICABLE = {}
 
 MANIFEST_TEXT = {
+    "C06": {
+        "technique": "stateful property-based testing with fault injection: generated send/burst/fault histories against a harness-owned TCP peer, frame-stream well-formedness and exactly-once/order accounting oracle",
+        "level_text": "Generated-history exploration: sends of packs from 30 bytes to 2.5 MB (beyond the 2 MiB write buffer), concurrent bursts from up to 8 goroutines, peer faults at generated byte offsets (mid-header, mid-payload, between frames, reset, listener down/up); every byte every connection received is parsed into frames and compared with reference frames; healthy-connection delivery, recovery after the first reported error and per-sender order are asserted.",
+        "level_note": "The goroutine schedule inside the client is not controlled; the oracle is sound for any schedule. Liveness ('reconnects on a later send') is checked as bounded safety.",
+    },
     "C09": {
         "technique": "stateful (model-based) property-based testing: generated operation histories over every public method of 13 types against a bounded insertion-ordered dictionary model, invariant after every step",
         "level_text": "Generated-history exploration: per type hundreds (quick) to 30000 (thorough) histories of up to 400 operations with keys chosen to collide, cross table growth, hit evictions, sort after removal; after every step the return value, size, first/last and the complete key/value/entry enumerations are compared with the model.",
